@@ -373,7 +373,7 @@ func cmdRun(args []string) int {
 	}
 
 	inconcl := ex.unsupportedN + ex.budgetN
-	exhaustive := inconcl == 0 && !ex.stop && ex.qunknown == 0
+	exhaustive := inconcl == 0 && !ex.stop && ex.portUnknown == 0
 	missing := []string{}
 	for _, l := range spec.Reach {
 		if ex.reach[l] == 0 {
@@ -382,6 +382,9 @@ func cmdRun(args []string) int {
 	}
 	if ex.stop {
 		fmt.Printf("INCONCLUSIVE property=%s reason=%s (exploration truncated)\n", *prop, ex.stopWhy)
+	}
+	if ex.portUnknown > 0 {
+		fmt.Printf("INCONCLUSIVE property=%s reason=%d feasibility queries undecided by every solver (both branches kept)\n", *prop, ex.portUnknown)
 	}
 	if inconcl > 0 {
 		fmt.Printf("INCONCLUSIVE property=%s reason=%d paths ended inconclusive: %s\n", *prop, inconcl, strings.Join(ex.sortedUnsupported(), "; "))
@@ -421,13 +424,14 @@ func cmdRun(args []string) int {
 		"discharged":           ex.dischSyn + ex.dischSolver,
 		"discharged_by_solver": ex.dischSolver,
 		"discharged_syntactic": ex.dischSyn,
-		"queries":              map[string]int{"total": ex.queries, "sat": ex.qsat, "unsat": ex.qunsat, "unknown": ex.qunknown, "errors": ex.qerr},
+		"queries":              map[string]int{"total": ex.queries, "sat": ex.qsat, "unsat": ex.qunsat, "unknown_by_one_solver": ex.qunknown, "undecided_by_portfolio": ex.portUnknown, "errors": ex.qerr},
 		"solver_time_s":        ex.solverTime.Seconds(),
 		"solver_model_mismatch": ex.modelMismatch,
 		"load_and_ssa_build_s": loadT.Seconds(),
 		"instructions":         ex.steps,
 		"scheduling_points":    ex.schedPoints,
 		"max_mutation_points":  ex.maxMutations,
+		"symbolic_fork_sites":  ex.topForks(12),
 		"functions_encoded":    ex.funcList(),
 		"functions_encoded_n":  len(ex.funcs),
 		"bounds":               spec.Bounds,
@@ -443,6 +447,9 @@ func cmdRun(args []string) int {
 		"workers":              cfg.Workers,
 	}
 	writeEv()
+	if *verbose {
+		fmt.Println("fork sites:", strings.Join(ex.topForks(12), "\n  "))
+	}
 	fmt.Printf("property=%s tier=%s paths=%d completed=%d infeasible=%d violating=%d inconclusive=%d obligations=%d discharged=%d (solver %d) queries=%d solver=%.1fs wall=%.1fs exhaustive=%v\n",
 		*prop, *tier, ex.paths, ex.done, ex.infeasible, ex.violN, inconcl, ex.obligations, ex.dischSyn+ex.dischSolver, ex.dischSolver, ex.queries, ex.solverTime.Seconds(), time.Since(start).Seconds(), exhaustive)
 	return exit
